@@ -28,6 +28,19 @@ TARGETS = {
     "xdis/wordcode.py": ["C04"],
     "xdis/std.py": ["C18", "C15"],
     "xdis/codetype/__init__.py": ["C16", "C01"],
+    "xdis/codetype/code38.py": ["C19", "C16"],
+    "xdis/codetype/code13.py": ["C19", "C16"],
+    "xdis/codetype/code20.py": ["C19", "C16"],
+    "xdis/codetype/base.py": ["C16", "C19"],
+    "xdis/opcodes/base.py": ["C09", "C03"],
+    "xdis/opcodes/format/extended.py": ["C12"],
+    "xdis/opcodes/format/basic.py": ["C12"],
+    "xdis/op_imports.py": ["C09", "C02"],
+    "xdis/version_info.py": ["C08", "C07"],
+    "xdis/lineoffsets.py": ["C05"],
+    "xdis/cross_types.py": ["C07", "C01"],
+    "xdis/disasm.py ": ["C11", "C07"],
+    "xdis/unmarshal.py ": ["C11", "C07"],
 }
 CMP = {ast.Lt: "<=", ast.LtE: "<", ast.Gt: ">=", ast.GtE: ">", ast.Eq: "!=", ast.NotEq: "=="}
 BIN = {ast.Add: "-", ast.Sub: "+", ast.LShift: ">>", ast.RShift: "<<", ast.BitAnd: "|", ast.BitOr: "&"}
@@ -60,19 +73,29 @@ def sites(path):
                 seg = lines[n.lineno - 1][n.col_offset:n.end_col_offset]
                 if seg.strip().isdigit() or seg.lower().startswith("0x"):
                     out.append((fn.name, n.lineno, n.col_offset, n.end_col_offset, seg, str(n.value + 1), "const+1"))
+        for n in ast.walk(fn):
+            if isinstance(n, (ast.Assign, ast.AugAssign, ast.Expr)) and n.lineno == n.end_lineno and not (isinstance(n, ast.Expr) and isinstance(n.value, ast.Constant)):
+                seg = lines[n.lineno - 1][n.col_offset:n.end_col_offset]
+                out.append((fn.name, n.lineno, n.col_offset, n.end_col_offset, seg, "pass", "stmt-del"))
+            elif isinstance(n, (ast.If, ast.While)) and n.test.lineno == n.test.end_lineno:
+                seg = lines[n.test.lineno - 1][n.test.col_offset:n.test.end_col_offset]
+                out.append((fn.name, n.test.lineno, n.test.col_offset, n.test.end_col_offset, seg, "not (" + seg + ")", "negate"))
     return lines, out
 
 
 def main():
     count, seed = int(sys.argv[1]), int(sys.argv[2])
     rng = random.Random(seed)
-    outp = os.path.join(VERIF, ".work", "mutation_campaign.jsonl")
+    outp = os.path.join(VERIF, ".work", sys.argv[3] if len(sys.argv) > 3 else "mutation_campaign.jsonl")
     os.makedirs(os.path.dirname(outp), exist_ok=True)
     done = 0
     tried = 0
     while done < count and tried < count * 6:
         tried += 1
-        rel = rng.choice(sorted(TARGETS))
+        relkey = rng.choice(sorted(TARGETS))
+        rel = relkey.strip()
+        if not os.path.exists(os.path.join("/repo", rel)):
+            continue
         lines, ss = sites(os.path.join("/repo", rel))
         if not ss:
             continue
@@ -95,7 +118,7 @@ def main():
             else:
                 rec["checks"] = {}
                 caught = False
-                for p in TARGETS[rel]:
+                for p in TARGETS[relkey]:
                     q = subprocess.run(["python3-vt", os.path.join(VERIF, "check.py"), p], env=dict(os.environ, XDIS_REPO=scratch), capture_output=True, text=True, errors="replace")
                     v = [l for l in q.stdout.split("\n") if l.startswith("VIOLATION")]
                     rec["checks"][p] = {"exit": q.returncode, "violations": len(v), "first": (v[0].split("replays/")[-1][:90] if v else ""),
